@@ -21,6 +21,9 @@ type legacy struct {
 	Freed   []int `json:"freed"`
 	Pending bool  `json:"pending"`
 	Bits    int   `json:"bits"`
+	// CtxN = n > 0: before the traced open the upgrade is attempted once with a context that reports DeadlineExceeded from
+	// its n-th check on (an open interrupted by cancellation instead of a crash); what it leaves is the starting point
+	CtxN int `json:"ctxN"`
 	Torn    int   `json:"torn"` // with Lost > 0: the first lost record is torn, its first n bytes remain (n < record length)
 	Lost    int   `json:"lost"` // the legacy primary lost its last n records (cut at a record boundary): keys whose current record is gone must be absent after the upgrade
 }
